@@ -44,6 +44,7 @@ type Profile struct {
 	OnCompleteFill int
 	LateAdd        bool
 	Epilogues      []string
+	BuiltinPct     int  // percent of bars that also carry 1-2 of the library's own decorators
 	EwmaPct        int  // percent of decorators that also implement EwmaDecorator
 	NoDecorPct     int  // percent of bars without any decorator (besides the row tag)
 	ChurnW         int  // weight of the macro "finish a bar, two render cycles, add the next bar" (one leaves, one joins between two frames)
@@ -154,6 +155,12 @@ func genBarSpec(t *rapid.T, prof *Profile, idx int, succOf map[int]bool) engine.
 			for i := 0; i < np; i++ {
 				b.Decors = append(b.Decors, genDecorSpec(t, prof, false, side))
 			}
+		}
+	}
+	if pct(t, prof.BuiltinPct, "builtins") {
+		n := rapid.IntRange(1, 2).Draw(t, "nbuiltin")
+		for i := 0; i < n; i++ {
+			b.Builtins = append(b.Builtins, rapid.SampledFrom([]string{"avgeta", "avgspeed", "ewmaeta", "ewmaspeed", "counters", "elapsed", "name", "spinner"}).Draw(t, "builtin"))
 		}
 	}
 	// shuffle sync/plain order a little: move a plain decorator in front sometimes
